@@ -93,6 +93,67 @@ _imps = {"i%d.emb" % k: "struct T%sx:\n  0 [+1]  UInt  x\n" % "abcdef"[k] for k 
 HASH_SOURCES["I"] = {"files": dict(_imps, **{"i.emb": "".join('import "i%d.emb" as m%d\n' % (k, k) for k in (3, 0, 5, 1, 4, 2)) +
                                               "struct Ii:\n" + "".join("  %d [+1]  m%d.T%sx  f%d\n" % (k, k, "abcdef"[k], k) for k in range(6))}),
                      "main": "i.emb"}
+# one source per *pass* that can report several independent errors at once (a source with errors in two passes only
+# ever shows the first pass's): J = dependency cycles, K = type errors, L = constraint violations, M = unresolved names
+HASH_SOURCES["J"] = {"files": {"j.emb": """[$default byte_order: "LittleEndian"]
+struct Jj:
+  let a = b + 1
+  let b = a + 1
+  let c = d + 1
+  let d = e + 1
+  let e = c + 1
+  0 [+1]  UInt  x
+struct Kk:
+  let p = q
+  let q = p
+  0 [+r]  UInt  s
+  let r = s
+enum Ee:
+  PP = QQ
+  QQ = RR
+  RR = PP
+  SS = TT
+  TT = SS
+"""}, "main": "j.emb"}
+HASH_SOURCES["K"] = {"files": {"k.emb": """[$default byte_order: "LittleEndian"]
+enum En:
+  VV = 1
+struct Kt:
+  0 [+1]  UInt  x
+  let a = x + true
+  let b = En.VV + 1
+  let c = x == En.VV
+  let d = true ? x : En.VV
+  let e = $max(x, true)
+  if x:
+    1 [+1]  UInt  y
+  2 [+En.VV]  UInt  z
+"""}, "main": "k.emb"}
+HASH_SOURCES["L"] = {"files": {"l.emb": """[$default byte_order: "LittleEndian"]
+enum En:
+  VV = 1
+  WW = 99999999999999999999999
+bits Bt:
+  0 [+3]  En  e
+  0 [+70]  UInt  wide
+struct Lt:
+  0 [+16]  UInt  a
+  0 [+3]  Float  b
+  0 [+2]  Bcd:12  c
+  0 [+1]  Flag  d
+  0 [+9]  Int  e
+  0 [+2]  UInt:8[3]  f
+  1 [+2]  UInt  class
+  1 [+2]  UInt  while
+"""}, "main": "l.emb"}
+HASH_SOURCES["M"] = {"files": {"m.emb": """[$default byte_order: "LittleEndian"]
+struct Mt:
+  0 [+1]  Nope  a
+  1 [+1]  Missing  b
+  2 [+zz]  UInt  c
+  let d = yy + ww
+  3 [+1]  mod.Thing  e
+"""}, "main": "m.emb"}
 HASH_SOURCES["H"] = {"files": {"h.emb": G_TEXT}, "main": "h.emb"}
 
 
